@@ -14,7 +14,9 @@ Definition c_parent (c : jctx) : jctx := removelast c.
 
 (* ---- user predicates: functions of the public view of the candidate *)
 Definition u_const (v : json) : jctx -> res json := fun _ => Ok v.                 (* lambda m: v *)
-Definition u_raise (n : nat) : jctx -> res json := fun _ => Exn (EUser n).         (* raises Boom(n) *)
+(* raise Boom(n); n = 0 stands for `raise StopIteration` (an exception like any other for a filter) *)
+Definition uexn (n : nat) : exn := match n with O => EStop | _ => EUser n end.
+Definition u_raise (n : nat) : jctx -> res json := fun _ => Exn (uexn n).
 Definition u_data : jctx -> res json := fun c => Ok (c_data c).                    (* lambda m: m.data *)
 Definition u_data_eq (v : json) : jctx -> res json := fun c => Ok (JBool (py_eq (c_data c) v)).
 Definition u_name_eq (n : name) : jctx -> res json := fun c => Ok (JBool (name_eqb (c_name c) n)).
@@ -28,7 +30,7 @@ Definition u_parent_name : jctx -> res json :=
            end.
 (* lambda m: m.data == v or raise Boom(n)   -- raises on part of the data *)
 Definition u_eq_or_raise (v : json) (n : nat) : jctx -> res json :=
-  fun c => if py_eq (c_data c) v then Exn (EUser n) else Ok (JBool true).
+  fun c => if py_eq (c_data c) v then Exn (uexn n) else Ok (JBool true).
 
 (* ---- conversion functions *)
 Definition f_neg (v : json) : res json :=
